@@ -3,8 +3,7 @@
    returned and its complete state after the call (read through the verif hook, sent as the
    difference to the previous state).  For every step
      kind 1  the model, started from the implementation's previous state, does not reach the
-             implementation's next state / return value (under either map iteration order);
-     kind 7  the model's UpdateConfig result depends on the map iteration order;
+             implementation's next state / return value (under any map iteration order);
      kind 2  enforcement oracle: a scheduler-decided Increase pushed usage over a limit;
      kind 3  max-applications oracle;
      kind 4  conservation oracle: tracked usage <> sum of live allocations;
@@ -131,24 +130,50 @@ Record ucase := mkCase {
   c_paths : list path;          (* the queue paths of the partition (lower case), all levels *)
   c_tids : list tid;
   c_disciplined : bool;         (* removeApp is set exactly on the release of the last allocation *)
-  c_lowerfix : bool;            (* false only for replays against the pinned code *)
+  c_fixed : bool;            (* false only for replays against the pinned code *)
   c_steps : list (op * ret * delta) }.
 
 Definition whos (c : ucase) : list who := map User (c_users c) ++ map Group (WILD :: c_groups c).
 
-Definition step_matches (lowerfix : bool) (s : ugm_state) (o : op) (r : ret) (s' : option ugm_state) : bool :=
-  let chk := fun ord =>
-    let '(ms, mr) := step_gen lowerfix ord s o in
-    ret_eqb mr r && match ms, s' with
-                    | Some a, Some b => state_eqb a b
-                    | None, None => true
-                    | _, _ => false
-                    end in
-  chk false || chk true.
-Definition order_dependent (lowerfix : bool) (s : ugm_state) (o : op) : bool :=
+(* all orders of a short list (the group resets of one reload) *)
+Fixpoint inserts {A} (x : A) (l : list A) : list (list A) :=
+  match l with
+  | [] => [[x]]
+  | y :: t => (x :: l) :: map (cons y) (inserts x t)
+  end.
+Fixpoint perms {A} (l : list A) : list (list A) :=
+  match l with
+  | [] => [[]]
+  | x :: t => flat_map (inserts x) (perms t)
+  end.
+
+Definition step_agrees (fixed : bool) (pg : list (path * gname) -> list (path * gname)) (ord : bool)
+           (s : ugm_state) (o : op) (r : ret) (s' : option ugm_state) : bool :=
+  let '(ms, mr) := step_gen fixed pg ord s o in
+  if ret_eqb mr r then
+    match ms, s' with
+    | Some a, Some b => state_eqb a b
+    | None, None => true
+    | _, _ => false
+    end
+  else false.
+(* the implementation's step is the model's step for some iteration order of the maps *)
+Definition step_matches (fixed : bool) (s : ugm_state) (o : op) (r : ret) (s' : option ugm_state) : bool :=
+  if step_agrees fixed (fun l => l) false s o r s' then true else
+  match o with
+  | OConfig c rn =>
+      if step_agrees fixed (@rev _) true s o r s' then true else
+      let dg := dropped_groups fixed s c rn in
+      if Nat.leb (length dg) 5
+      then existsb (fun p => if step_agrees fixed (fun _ => p) false s o r s' then true
+                             else step_agrees fixed (fun _ => p) true s o r s') (perms dg)
+      else false
+  | _ => false
+  end.
+Definition order_dependent (fixed : bool) (s : ugm_state) (o : op) : bool :=
   match o with
   | OConfig _ _ =>
-      match step_gen lowerfix false s o, step_gen lowerfix true s o with
+      match step_gen fixed (fun l => l) false s o, step_gen fixed (@rev _) true s o with
       | (Some a, r1), (Some b, r2) => negb (state_eqb a b && ret_eqb r1 r2)
       | (None, _), (None, _) => false
       | _, _ => true
@@ -156,7 +181,6 @@ Definition order_dependent (lowerfix : bool) (s : ugm_state) (o : op) : bool :=
   | _ => false
   end.
 
-(* first (who, path) for which the configuration oracle fails *)
 Definition limit_failures (c : ucase) (s : ugm_state) (conf : qconf) : list (who * path) :=
   flat_map (fun w => flat_map (fun h => if limit_exact s conf w h then [] else [(w, h)]) (c_paths c)) (whos c).
 Definition usage_failures (c : ucase) (s : ugm_state) (l : ledger) : list (who * path) :=
@@ -168,7 +192,7 @@ Record cstate := mkCS {
   cs_conf : option qconf;       (* latest configuration that was loaded without error *)
   cs_prevconf : option qconf;
   cs_conf_ok : bool;            (* no UpdateConfig failed so far *)
-  cs_hist : list op;            (* calls so far, latest first *)
+  cs_taint : taint;
   cs_dead : bool;
   cs_kinds : list N }.
 
@@ -178,17 +202,17 @@ Definition check_step (c : ucase) (cs : cstate) (x : op * ret * delta) : cstate 
   let s := cs_impl cs in
   let crashed := match r with RCrash => true | _ => false end in
   let s' := apply_delta s d in
-  let k1 := if step_matches (c_lowerfix c) s o r (if crashed then None else Some s') then [] else [1] in
-  let k7 := if order_dependent (c_lowerfix c) s o then [7] else [] in
+  let k1 := if step_matches (c_fixed c) s o r (if crashed then None else Some s') then [] else [1] in
+  let k7 := if order_dependent (c_fixed c) s o then [17] else [] in
   let k6 := if crashed then [if known_crash s o then 16 else 6] else [] in
   let l' := ledger_step (cs_ledger cs) o in
+  let isreload := match o with OConfig _ _ => true | _ => false end in
   let '(conf', prev', ok') :=
     match o, r with
     | OConfig cf _, RConf true => (Some cf, cs_conf cs, cs_conf_ok cs)
     | OConfig _ _, _ => (cs_conf cs, cs_prevconf cs, false)
     | _, _ => (cs_conf cs, cs_prevconf cs, cs_conf_ok cs)
     end in
-  let hist' := o :: cs_hist cs in
   let k23 :=
     match o with
     | OInc p a _ u true =>
@@ -196,19 +220,26 @@ Definition check_step (c : ucase) (cs : cstate) (x : op * ret * delta) : cstate 
         (if canrun_step s s' (fst u) a p then [] else [if known_canrun s s' (fst u) a p then 13 else 3])
     | _ => []
     end in
+  let failing :=
+    if crashed || negb ok' then [] else
+    match conf' with
+    | Some cf =>
+        map (fun wp => (wp, if isreload then limit_kind_at_reload (cs_taint cs) prev' cf s s' (fst wp) (snd wp)
+                            else limit_kind_between (cs_taint cs) (fst wp) (snd wp)))
+            (limit_failures c s' cf)
+    | None => []
+    end in
+  let t' := taint_step (cs_taint cs) isreload prev' conf' (WILD :: c_groups c) (c_paths c) s s' l' failing in
   let k4 := if crashed || negb (c_disciplined c) then [] else
-            map (fun wp => if known_usage hist' s' l' (fst wp) (snd wp) then 14 else 4) (usage_failures c s' l') in
-  let k5 := if crashed || negb ok' then [] else
-            match conf' with
-            | Some cf => map (fun wp => known_limit hist' prev' cf s' (fst wp) (snd wp)) (limit_failures c s' cf)
-            | None => []
-            end in
-  mkCS s' l' conf' prev' ok' hist' crashed (cs_kinds cs ++ k1 ++ k7 ++ k6 ++ k23 ++ k4 ++ k5).
+            map (fun wp => if known_usage t' s' l' (fst wp) (snd wp) then 14 else 4) (usage_failures c s' l') in
+  let k5 := map snd failing in
+  mkCS s' l' conf' prev' ok' t' crashed (cs_kinds cs ++ k1 ++ k7 ++ k6 ++ k23 ++ k4 ++ k5).
 
 Fixpoint dedupN (l : list N) : list N :=
   match l with [] => [] | x :: t => if mem x t then dedupN t else x :: dedupN t end.
+Definition cs_init : cstate := mkCS ugm_init [] None None true taint0 false [].
 Definition check_case (c : ucase) : list N :=
-  dedupN (cs_kinds (fold_left (check_step c) (c_steps c) (mkCS ugm_init [] None None true [] false []))).
+  dedupN (cs_kinds (fold_left (check_step c) (c_steps c) cs_init)).
 
 Fixpoint indexed {A} (i : N) (l : list A) : list (N * A) :=
   match l with [] => [] | a :: t => (i, a) :: indexed (i + 1) t end.
